@@ -1165,3 +1165,270 @@ func (c *Ctx) lockStepRule(rule string, fns []*ssa.Function) int {
 	c.S.Count("lock_step_indices", n)
 	return n
 }
+
+// decodedBoundRule (T16). In package ovmf, a slice expression over a []byte whose bounds derive from fields decoded
+// from the image (fields of ovmf/abi structures) is only safe if a validator bounds those fields from above. The
+// rule is field-based and flow-insensitive — it asks that the bound EXISTS somewhere in the package, not that it
+// dominates the slice (the validators run in a separate pass over the same records): for every such field there is
+// a comparison with a refusing branch (the branch returns a non-nil error) whose accepting side puts the field on the
+// smaller-or-equal side of a value anchored in a length — len(x), a constant, another bounded field, or a
+// difference of those — or ties it by != to a bounded field. Relaxing `MemorySize != DataSize` to `MemorySize <
+// DataSize` leaves MemorySize bounded only from below: reported. Returns the number of slices examined.
+func (c *Ctx) decodedBoundRule(rule string) int {
+	abiPkg := repoPath("ovmf/abi")
+	fieldOf := func(v ssa.Value) (flow.FieldKey, string, bool) {
+		ld, ok := v.(*ssa.UnOp)
+		if !ok || ld.Op != token.MUL {
+			return flow.FieldKey{}, "", false
+		}
+		fa, ok := ld.X.(*ssa.FieldAddr)
+		if !ok {
+			return flow.FieldKey{}, "", false
+		}
+		t := fa.X.Type()
+		if p, ok := t.Underlying().(*types.Pointer); ok {
+			t = p.Elem()
+		}
+		n, ok := t.(*types.Named)
+		if !ok || n.Obj().Pkg() == nil || n.Obj().Pkg().Path() != abiPkg {
+			return flow.FieldKey{}, "", false
+		}
+		return flow.StructFieldKey(fa.X.Type(), fa.Field), n.Obj().Name() + "." + flow.FieldName(fa), true
+	}
+	// fields and anchors a value is computed from (local arithmetic; captured variables resolved to what is stored in them)
+	type deps struct {
+		fields map[flow.FieldKey]string
+		anchor bool // mentions len(x) or is a constant
+		other  bool // something else (unknown provenance)
+	}
+	var collect func(v ssa.Value, d *deps, depth int, seen map[ssa.Value]bool)
+	collect = func(v ssa.Value, d *deps, depth int, seen map[ssa.Value]bool) {
+		if depth > 10 || seen[v] {
+			return
+		}
+		seen[v] = true
+		if k, name, ok := fieldOf(v); ok {
+			d.fields[k] = name
+			return
+		}
+		switch x := v.(type) {
+		case *ssa.Const:
+			d.anchor = true
+		case *ssa.Parameter:
+			// what the callers pass (a length computed by the caller: firmwareLen uint32)
+			fn := x.Parent()
+			idx := -1
+			for i, p := range fn.Params {
+				if p == x {
+					idx = i
+				}
+			}
+			found := false
+			if node := c.P.CallGraph().Nodes[fn]; node != nil && idx >= 0 {
+				for _, e := range node.In {
+					if e.Site == nil || e.Site.Common().StaticCallee() != fn || idx >= len(e.Site.Common().Args) || c.isTestFunc(e.Caller.Func) {
+						continue
+					}
+					found = true
+					collect(e.Site.Common().Args[idx], d, depth+1, seen)
+				}
+			}
+			if !found {
+				d.other = true
+			}
+		case *ssa.Convert:
+			collect(x.X, d, depth+1, seen)
+		case *ssa.ChangeType:
+			collect(x.X, d, depth+1, seen)
+		case *ssa.BinOp:
+			collect(x.X, d, depth+1, seen)
+			collect(x.Y, d, depth+1, seen)
+		case *ssa.Phi:
+			for _, e := range x.Edges {
+				collect(e, d, depth+1, seen)
+			}
+		case *ssa.Call:
+			if bi, ok := x.Call.Value.(*ssa.Builtin); ok && (bi.Name() == "len" || bi.Name() == "cap") {
+				d.anchor = true
+				return
+			}
+			d.other = true
+		case *ssa.UnOp:
+			if x.Op == token.MUL {
+				switch cell := x.X.(type) {
+				case *ssa.FreeVar:
+					vals := storesToCapturedCell(cell)
+					if len(vals) == 0 {
+						d.other = true
+					}
+					for _, sv := range vals {
+						collect(sv, d, depth+1, seen)
+					}
+					return
+				case *ssa.Alloc:
+					n := 0
+					if refs := cell.Referrers(); refs != nil {
+						for _, r := range *refs {
+							if st, ok := r.(*ssa.Store); ok && st.Addr == ssa.Value(cell) {
+								n++
+								collect(st.Val, d, depth+1, seen)
+							}
+						}
+					}
+					if n == 0 {
+						d.other = true
+					}
+					return
+				}
+			}
+			d.other = true
+		default:
+			d.other = true
+		}
+	}
+	depsOf := func(v ssa.Value) *deps {
+		d := &deps{fields: map[flow.FieldKey]string{}}
+		collect(v, d, 0, map[ssa.Value]bool{})
+		return d
+	}
+	// refusing comparisons of the package: (smaller-or-equal side, larger side) on the accepting edge; or equalities
+	type rel struct {
+		small, large *deps
+		eq           bool
+	}
+	var rels []rel
+	var fns []*ssa.Function
+	for _, f := range c.P.RepoFunctions() {
+		if load.RelPkg(f) == "ovmf" && !c.isTestFunc(f) && f.Blocks != nil {
+			fns = append(fns, f)
+		}
+	}
+	refuses := func(b *ssa.BasicBlock, f *ssa.Function) bool {
+		for i := 0; i < 3 && b != nil; i++ {
+			if ret, ok := b.Instrs[len(b.Instrs)-1].(*ssa.Return); ok {
+				ei := errIndex(f.Signature)
+				if ei < 0 || ei >= len(ret.Results) {
+					return false
+				}
+				k, isK := ret.Results[ei].(*ssa.Const)
+				return !isK || !k.IsNil()
+			}
+			if len(b.Succs) != 1 {
+				return false
+			}
+			b = b.Succs[0]
+		}
+		return false
+	}
+	for _, f := range fns {
+		for _, b := range f.Blocks {
+			iff, ok := b.Instrs[len(b.Instrs)-1].(*ssa.If)
+			if !ok {
+				continue
+			}
+			cond, val := iff.Cond, true
+			for {
+				if u, ok := cond.(*ssa.UnOp); ok && u.Op == token.NOT {
+					cond, val = u.X, !val
+					continue
+				}
+				break
+			}
+			bo, ok := cond.(*ssa.BinOp)
+			if !ok {
+				continue
+			}
+			// which truth value of the comparison is refused?
+			tRef, fRef := refuses(b.Succs[0], f), refuses(b.Succs[1], f)
+			if tRef == fRef {
+				continue
+			}
+			refusedWhen := tRef == val // the comparison's own truth value on the refusing edge
+			x, y := depsOf(bo.X), depsOf(bo.Y)
+			op := bo.Op
+			if !refusedWhen {
+				// refused when the comparison is false: accepted when true
+				switch op {
+				case token.LSS, token.LEQ:
+					rels = append(rels, rel{small: x, large: y})
+				case token.GTR, token.GEQ:
+					rels = append(rels, rel{small: y, large: x})
+				case token.EQL:
+					rels = append(rels, rel{small: x, large: y, eq: true})
+				}
+				continue
+			}
+			// refused when true: accepted when false
+			switch op {
+			case token.LSS, token.LEQ: // !(x < y) ⇒ y <= x
+				rels = append(rels, rel{small: y, large: x})
+			case token.GTR, token.GEQ: // !(x > y) ⇒ x <= y
+				rels = append(rels, rel{small: x, large: y})
+			case token.NEQ:
+				rels = append(rels, rel{small: x, large: y, eq: true})
+			}
+		}
+	}
+	bounded := map[flow.FieldKey]bool{}
+	anchored := func(d *deps) bool {
+		if d.other {
+			return false
+		}
+		for k := range d.fields {
+			if !bounded[k] {
+				return false
+			}
+		}
+		return d.anchor || len(d.fields) > 0
+	}
+	for changed := true; changed; {
+		changed = false
+		for _, r := range rels {
+			mark := func(small, large *deps) {
+				if !anchored(large) {
+					return
+				}
+				for k := range small.fields {
+					if !bounded[k] {
+						bounded[k] = true
+						changed = true
+					}
+				}
+			}
+			mark(r.small, r.large)
+			if r.eq {
+				mark(r.large, r.small)
+			}
+		}
+	}
+	n := 0
+	for _, f := range fns {
+		for _, b := range f.Blocks {
+			for _, in := range b.Instrs {
+				sl, ok := in.(*ssa.Slice)
+				if !ok || sl.X.Type().String() != "[]byte" {
+					continue
+				}
+				d := &deps{fields: map[flow.FieldKey]string{}}
+				for _, bv := range []ssa.Value{sl.Low, sl.High} {
+					if bv != nil {
+						collect(bv, d, 0, map[ssa.Value]bool{})
+					}
+				}
+				if len(d.fields) == 0 {
+					continue
+				}
+				n++
+				var missing []string
+				for k, name := range d.fields {
+					if !bounded[k] {
+						missing = append(missing, name)
+					}
+				}
+				sort.Strings(missing)
+				c.S.Check(len(missing) == 0, rule, load.FuncName(f)+":slice bounded by decoded fields", c.pos(sl.Pos()), fmt.Sprintf("every decoded field in the bounds (%d) is bounded from above by a refusing comparison in the package", len(d.fields)), fmt.Sprintf("the slice bounds use %v, which no refusing comparison of package ovmf bounds from above (against a length, a constant or another bounded field): a crafted image drives the slice out of range (panic)", missing))
+			}
+		}
+	}
+	return n
+}
